@@ -7,18 +7,17 @@ namespace CalmVerif.TokenAdj
 open CalmVerif CalmVerif.Unparse
 
 def certMin1 : List (String × Abs) := certIter Gen.Rules.rs_minify1 Gen.Defs.definitions 4
-def cxMin1 : Ctx := mkCtx Gen.Rules.rs_minify1 certMin1
+def cxMin1 : Ctx := mkCtx Gen.Rules.rs_minify1 Gen.Defs.definitions certMin1
 /-- the follow relation: every pair of symbols (token signatures, layout markers) that can be adjacent in a chunk stream -/
 def followMin1 : List Rect := allNeeds cxMin1 Gen.Defs.definitions
 
 set_option maxRecDepth 1000000 in
 theorem certMin1_closed_forced :
-    withCert Gen.Rules.rs_minify1 Gen.Defs.definitions 4
-      (fun c => closedCert (mkCtx Gen.Rules.rs_minify1 c) Gen.Defs.definitions) = true := by decide +kernel
+    withCtx Gen.Rules.rs_minify1 Gen.Defs.definitions 4 (fun cx => closedCert cx Gen.Defs.definitions) = true := by decide +kernel
 
 theorem certMin1_closed : closedCert cxMin1 Gen.Defs.definitions = true := by
   have h := certMin1_closed_forced
-  rw [withCert_eq] at h
+  rw [withCtx_eq] at h
   exact h
 
 theorem followMin1_closed : closed cxMin1 followMin1 Gen.Defs.definitions = true :=
